@@ -10,3 +10,14 @@ package annotation
 //@ focus out-of-scope (not (callres "IsPkgInScope"))
 //@ ensures silent-when-out-of-scope (= (calls "effect:") 0)
 //@ ensures empty-result-when-out-of-scope (and (fresh result0) (= (deref result0) (zero ObservedMap)) (isnil result1))
+
+//@ -- call-site re-keying helpers, used as functions of their arguments by assertion/function (bodies not verified here)
+//@ func DuplicateParamProducer
+//@ pure
+//@ nobody
+//@ func DuplicateReturnConsumer
+//@ pure
+//@ nobody
+//@ func NewCallSiteParamKey
+//@ pure
+//@ nobody
